@@ -92,6 +92,10 @@ def gen_cases(tier, seed):
         for arity in (2, 3):
             for n in plan["grid_sizes"]:
                 yield {"kind": "grid", "comb": kind, "arity": arity, "n": n, "seed": rng.randrange(10**6)}
+    for kind in ("par", "xpar"):  # wider combinators: sampled weight vectors (the full grid is 7^k)
+        for arity in (4, 5, 6, 7, 9):
+            for n in plan["grid_sizes"]:
+                yield {"kind": "grid", "comb": kind, "arity": arity, "n": n, "sampled": 60 if tier == "quick" else 400, "seed": rng.randrange(10**6)}
     for leaf in LEAVES:
         for form in FORMS:
             yield {"kind": "leaf", "leaf": leaf, "form": form, "seed": rng.randrange(10**6)}
@@ -168,7 +172,13 @@ def run_grid(case, rec):
     leaves_cycle = ["novelty", "elitism", "tournament", "mutation", "crossover"]
     ks = sorted({n, max(1, n - 1), max(1, n // 2), 1})
     ci = 0
-    for wv in itertools.product(WEIGHTS, repeat=case["arity"]):
+    if case.get("sampled"):
+        rngw = pyrandom.Random(case["seed"])
+        vectors = [tuple([1] * case["arity"]), tuple([0.5] * case["arity"]), tuple([90] + [1] * (case["arity"] - 1))]
+        vectors += [tuple(rngw.choice(WEIGHTS + [0.55, 0.6, 0.65]) for _ in range(case["arity"])) for _ in range(case["sampled"])]
+    else:
+        vectors = itertools.product(WEIGHTS, repeat=case["arity"])
+    for wv in vectors:
         if not any(wv):
             continue
         for k in ks:
@@ -182,7 +192,7 @@ def run_grid(case, rec):
             rec.distinct_add([spec, n, k, form])
             wit = {"composition": spec, "size": n, "target": k, "form": form}
             apply_count(env, build(spec), pop_arg, k, rec, wit, f"size:{case['comb']}-grid:{form}")
-    rec.sample({"grid": case["comb"], "arity": case["arity"], "size": n, "weight_vectors": len(WEIGHTS) ** case["arity"] - 1, "targets": ks})
+    rec.sample({"grid": case["comb"], "arity": case["arity"], "size": n, "weight_vectors": (len(WEIGHTS) ** case["arity"] - 1) if not case.get("sampled") else f"{case['sampled']} sampled + 3 fixed", "targets": ks}, cap=6)
 
 
 def _as_population(env, inds):
